@@ -381,6 +381,8 @@ func checkC13(p *Prog, r *Report) {
 	}
 	checkListFraming(p, r, "C13/LIST-FRAMING")
 	checkExcludedLeavesNoTrace(p, r)
+	checkUserRuleSyntax(p, r)
+	checkAnchoredDecided(p, r)
 	_ = nP
 	r.Uncovered("string semantics of the match (pattern == filepath.Base(name)), anchored patterns, rule grammar beyond the three prefixes")
 	r.Assume("foreign code calls only function values and interface methods it was handed")
